@@ -77,6 +77,8 @@ def mktrace(spec: Tuple[str, str, str]):
         return CallTrace(mkfunc(m, q), {"x": Unserialisable()}, int)  # type: ignore[dict-item]
     if v in ("yint", "ystr"):
         return CallTrace(mkfunc(m, q), {"x": int}, None, int if v == "yint" else str)
+    if v == "bare":
+        return CallTrace(mkfunc(m, q), {}, None, None)   # a parameterless function whose call ended with an exception
     ret = {"int": int, "none": None, "nonetype": type(None), "str": str}[v]
     return CallTrace(mkfunc(m, q), {"x": int}, ret)
 
@@ -89,6 +91,8 @@ def row_of(spec: Tuple[str, str, str]) -> Optional[Tuple[str, str, str, Optional
     arg = '{"x": {"module": "builtins", "qualname": "int"}}'
     if v in ("yint", "ystr"):
         return (m, q, arg, None, '{"module": "builtins", "qualname": "%s"}' % ("int" if v == "yint" else "str"))
+    if v == "bare":
+        return (m, q, "{}", None, None)
     ret = {"int": '{"module": "builtins", "qualname": "int"}', "str": '{"module": "builtins", "qualname": "str"}', "none": None, "nonetype": '{"module": "builtins", "qualname": "NoneType"}'}[v]
     return (m, q, arg, ret, None)
 
@@ -110,6 +114,7 @@ BATCHES: List[List[Tuple[str, str, str]]] = [
     [("m", "gen", "yint"), ("m", "gen", "ystr"), ("m", "gen", "none")],   # index 13: rows that differ only in their yield type
     [("m", "x", "bad"), ("m", "x", "int"), ("m", "x", "str")],            # index 14: an unserialisable and two good traces of ONE function
     [("m", "x", "int")],                                                   # index 15: a good trace of the function whose trace failed before
+    [("m", "noargs", "bare"), ("m2", "noargs", "bare")],                   # index 16: rows with no argument, no return and no yield type
 ]
 
 
